@@ -21,7 +21,8 @@ EXPLANATION = (
     'cell, stores the result there and reads inputs from there; (C04.5) Evaluator.evaluate interpreted on witness '
     'models: a failed and a successful evaluation leave the evaluator as they found it, the same cells evaluate '
     'normally afterwards.'
-    ' (C04.6) histories of set_cell_value / evaluate on a witness workbook (chains, diamond, ranges over formula cells, lazy IF/AND/OR arguments) interpreted end to end: every evaluation equals a freshly compiled model with the current inputs and is stored.')
+    ' (C04.6) histories of set_cell_value / evaluate on a witness workbook (chains, diamond, ranges over formula cells, lazy IF/AND/OR arguments) interpreted end to end: every evaluation equals a freshly compiled model with the current inputs and is stored.'
+    ' (C04.6) also histories through XLCell addresses and results that are error values.')
 NOT_DECIDED = 'equality of the values with those of a freshly compiled model'
 TRUSTED = ['receiver typing is origin-based over this package only (cells map subscripts, constructor calls)', 'workbook scenarios: pandas storage of range arrays as row-major rows, numpy on Python numbers (IEEE results, 64-bit integer wrap), dateutil.parser.parse rejecting texts that are no dates, openpyxl address arithmetic, inspect.signature built from the FunctionDef']
 
